@@ -311,7 +311,16 @@ def canon_fields(d):
             continue
         rest_w = [(n, t) for n, t in want if n not in hn]
         rest_h = [f_ for f_ in have if f_["name"] not in wn]
-        if len(rest_w) != len(rest_h) or any(_norm_ty(f_["ty"]) != t for f_, (_, t) in zip(rest_h, rest_w)):
+        def _repr_ty(s):
+            # `&Vec<X>` and `&[X]` are two spellings of a borrowed list (a field name is only an address for the rules:
+            # what the field holds is read from the program, not from this table)
+            import re as _re
+
+            return _re.sub(r"&('\w+ )?(mut )?std::vec::Vec<(.*)>$", r"&\1\2[\3]", s)
+
+        if len(rest_w) != len(rest_h):
+            continue
+        if any(_repr_ty(_norm_ty(f_["ty"])) != _repr_ty(t) for f_, (_, t) in zip(rest_h, rest_w)) and len(rest_w) != 1:
             continue
         m = {f_["name"]: n for f_, (n, _) in zip(rest_h, rest_w)}
         renames[a["path"]] = m
